@@ -61,6 +61,7 @@ Fixpoint match_params (params : list dtype) (vararg : bool) (args : list dtype) 
 Definition resolve_ret (ret : dtype) (env : tyenv) : option dtype :=
   match ret with
   | TVar n => tlookup n env          (* tyvars[self.data.name]; KeyError -> None *)
+  | TList (TVar n) => option_map TList (tlookup n env)      (* List(S): the element type is instantiated *)
   | _ => Some ret
   end.
 
